@@ -204,4 +204,40 @@ def specRunK (k : Nat) (d : DictK) : List OpK → List (Option (Option (List (Li
   | [] => []
   | op :: ops => (specStepK k d op).2 :: specRunK k (specStepK k d op).1 ops
 
+/-! ### Additions of deepening round B: the neighbouring entry points -/
+
+/-- squared Euclidean distance of two integer columns (what the KDTree proximity query of
+    `intersect_sets` compares with `tol² = 1e-20`) -/
+def sqDist : Coord → Coord → Int
+  | a :: as, b :: bs => (a - b) * (a - b) + sqDist as bs
+  | _, _ => 0
+
+/-- `AdaptiveInterpolationTable`: the sparse array `_table` (k value rows) together with the
+    side array `_pt` (one column of parameter-space coordinates per stored index). -/
+abbrev PtTable := StoreK × List (List Rat)
+
+/-- the grid point of an index: `base_point + h * index` -/
+def gridPoint (base h : List Rat) (c : Coord) : List Rat :=
+  List.zipWith (· + ·) base (List.zipWith (· * ·) h (c.map (fun (i : Int) => (i : Rat))))
+
+/-- `AdaptiveInterpolationTable.assign_values(val, coord, indices)`:
+    `column_permutation = self._table.add(ind_list, val, additive=False)` followed by
+    `self._pt = np.hstack((self._pt, coord[:, column_permutation]))`.
+    `P[j]` is the coordinate column given with batch element `j`. -/
+def assignValues (t : PtTable) (B : BatchK) (P : List (List Rat)) : PtTable :=
+  let r := addK t.1 B false
+  (r.1, t.2 ++ r.2.map (fun i => P.getD i []))
+
+/-- the alignment invariant of the adaptive table: `_pt[:, j]` is the grid point of `_coords[:, j]` -/
+def Aligned (g : Coord → List Rat) (t : PtTable) : Prop :=
+  t.2 = ((t.1.headD []).map (·.1)).map g
+
+/-- coordinates inserted by a list of `add` calls -/
+def insertedBy (adds : List (List (Coord × Rat) × Bool)) (c : Coord) : Prop :=
+  ∃ o ∈ adds, c ∈ o.1.map (·.1)
+
+/-- the store reached from the empty array by a list of `add` calls -/
+def reach (adds : List (List (Coord × Rat) × Bool)) : Store :=
+  adds.foldl (fun s o => (add s o.1 o.2).1) []
+
 end PorepyVerif.C46
